@@ -282,7 +282,7 @@ func c20MantExp(c *hx.Ctx, r *hx.RNG) {
 		v = r.Finite(r.Range(1, 120), r.LeadExp())
 	}
 	xm, xp := r.Mode(), digitsOf(v)+uint(r.Intn(30))
-	x := hx.Mk(v, xp, xm)
+	x := hx.MkR(r, v, xp, xm)
 	if r.Chance(30) && v.Form == oracle.Finite && xp > 1 {
 		// give x a non-Exact accuracy: attributes are copied to mant as they are
 		x.SetPrec(uint(r.Range(1, int(xp)-1)))
